@@ -744,10 +744,13 @@ def history_items(run, configs, checks, k, flags=(True,)):
     import random
     rnd = random.Random(run.seed + 17)
     base = [d for d in dataset_pool(3, 2) if all(sum(1 for v in r if v != -1) >= 2 for r in d)]
+    base1 = [d for d in dataset_pool(3, 1)] + [d for d in dataset_pool(2, 2) if all(sum(1 for v in r if v != -1) >= 2 for r in d)]
     items = []
     for cfg in configs:
         for i in range(k):
-            d = rnd.choice(base)
+            d = rnd.choice(base1 if cfg in HEAVY else base)
+            if len(d[0]) == 2:
+                d = tuple(r + (-1,) for r in d[:1]) + ((0, 1, 2),)
             names = NAMINGS[3][i % 3]
             if i % 2 == 0:
                 lvs, hist = d + ((-1, -1, -1),), ("empty",)
